@@ -150,7 +150,14 @@ fn run<T: Flt>(src: &mut Src, obs: &mut Obs) -> Result<(), Fail> {
         for l in 0..lanes {
             let y1 = data[i * lanes + l];
             let y2 = data[(i + 1) * lanes + l];
-            let m = y1.abs().max(y2.abs());
+            // at an interior knot both adjacent intervals bracket the query: either may be used
+            let mut m = y1.abs().max(y2.abs());
+            if q == x1 && i > 0 {
+                m = m.max(data[(i - 1) * lanes + l].abs());
+            }
+            if q == x2 && i + 2 < n {
+                m = m.max(data[(i + 2) * lanes + l].abs());
+            }
             let tol = ULPS * 2.0 * T::U * m;
             let want = exact_line(x1, y1, x2, y2, q);
             let got = res[k][l].f();
